@@ -4,17 +4,23 @@ guarded shadow fields of the message preamble; per-LP shadow history whose undon
 un-processed (events) exactly once per rollback; released buffers are ASan-poisoned; allocations == releases at the end."""
 import vlib
 import sim_common
+import mpi_common
 
 
 def run(tier, seed):
     chk = vlib.Check("C06", tier, seed)
-    n = 180 if tier == "quick" else 3000
+    n = 90 if tier == "quick" else 3000
     cases = sim_common.make_cases("C06", tier, seed, n, variants=(0,), fp_levels=(3, 2, 3), sizes=(0, 0, 1),
                                   threads=[4, 8, 2, 12, 3, 16, 6], gvts=[1000, 0, 100000, 300, 20])
     sim_common.run_sim_cases(chk, cases, timeout=300)
+    # remote windows (cancel before arrival / found in history) need real MPI ranks
+    mcases = mpi_common.make_cases("C06", tier, seed, 12 if tier == "quick" else 300, variants=(0,), fault_rates=(0, 40), layouts=[(2, 2), (2, 1), (3, 1), (3, 2)])
+    mpi_common.run_mpi_cases(chk, mcases, timeout=45 if tier == "quick" else 120)
     chk.rule = ("one case = (generated model with few LPs per thread and heavy cross-thread traffic, 2..16 threads, failpoints right after every flag update and "
                 "before re-insertion); the four local windows (cancel before / after the receiver processed, undo of an already cancelled event, undo with "
                 "re-queue) are counted; non-trivial / distinct as C01")
-    chk.assumptions = ["remote (MPI) copies are tied together by the mpi engine (C02); here n_nodes == 1"]
+    chk.assumptions = ["remote copies: each rank checks that a parked early anti-message annihilates its event when it arrives and that an event whose anti-message "
+                       "is parked is never executed; sender-side and receiver-side records of one remote message are not matched across ranks"]
     return chk.finish(min_evals=20, require={"cancel_before_receiver_processed": 100, "cancel_after_receiver_processed": 100, "undo_of_already_cancelled_event": 100,
-                                             "undo_requeued_event": 100, "extracted_cancelled_unprocessed": 100, "extracted_cancelled_requeued": 10, "message_frees": 10000})
+                                             "undo_requeued_event": 100, "extracted_cancelled_unprocessed": 100, "extracted_cancelled_requeued": 10, "message_frees": 10000,
+                                             "remote_anti_parked_early": 10, "events_annihilated_by_early_anti": 10, "remote_anti_found_in_history": 10})
